@@ -764,3 +764,6 @@ def run(facts, rep, tier):
     rep.rule("C16-R8", "The natural order used by sorted() / sort() / dedup() is total and agrees with ==: Ord, PartialOrd and PartialEq of every ordered workspace type (NodePath, Key, Position) "
              "are derived, or a hand-written order visibly compares every field with itself in declaration order.")
     rule_r8(facts, rep)
+    rep.rule("C16-R7b", "= C04-R2: a note that arrives by insert / edit is indexed from its root only, a bulk load indexes every arena slot: both give the same backlinks only if the index walker "
+             "follows every `child` and `next` link of every node kind.")
+    _c04.rule_r2(facts, rep, "C16-R7b")
